@@ -37,6 +37,8 @@ func (f *Formatter) formatExpression(expr ast.Expression) *ChunkBuffer {
 		buf.Write(f.formatFunctionCallExpression(t), Token)
 	case *ast.IfExpression:
 		buf.Write(f.formatIfExpression(t), Token)
+	case *ast.PostfixExpression:
+		buf.Write(f.formatPostfixExpression(t), Token)
 
 	// Combined expressions return *ChunkBuffer to merge
 	case *ast.PrefixExpression:
@@ -143,6 +145,11 @@ func (f *Formatter) formatIfExpression(expr *ast.IfExpression) string {
 	buf.WriteString(")")
 
 	return buf.String()
+}
+
+// Format postfix expression like `50%`
+func (f *Formatter) formatPostfixExpression(expr *ast.PostfixExpression) string {
+	return f.formatExpression(expr.Left).String() + expr.Operator
 }
 
 // Format parenthesis surrounded expression like `(req.http.Foo)`
